@@ -214,6 +214,17 @@ func (kgdb *KVInterfaceGDB) DelVertex(id string) error {
 
 	delKeys := make([][]byte, 0, 1000)
 
+	found := false
+	kgdb.kvg.kv.View(func(it kvi.KVIterator) error {
+		if _, err := it.Get(vid); err == nil {
+			found = true
+		}
+		return nil
+	})
+	if !found {
+		return fmt.Errorf("Vertex Not Found")
+	}
+
 	kgdb.kvg.kv.View(func(it kvi.KVIterator) error {
 		for it.Seek(skeyPrefix); it.Valid() && bytes.HasPrefix(it.Key(), skeyPrefix); it.Next() {
 			skey := it.Key()
